@@ -307,7 +307,7 @@ pub trait Datamodel {
                                 // error.execution in the internal event queue and use the empty string as
                                 // the value of the <content> element.
                                 error!("content expr '{}' is invalid ({})", expr, msg);
-                                self.internal_error_execution();
+                                // "execute" already added "error.execution"
                                 None
                             }
                             Ok(value) => Some(value),
@@ -351,7 +351,7 @@ pub trait Datamodel {
                                 // Processor must place the error 'error.execution' on the internal event
                                 // queue and must ignore the name and value.
                                 error!("expr of param {} is invalid ({})", param, msg);
-                                self.internal_error_execution();
+                                // "execute" already added "error.execution"
                             }
                             Ok(value) => {
                                 values.push(ParamPair::new_moved(
